@@ -188,7 +188,7 @@ def edit_part(run, rng, thorough, table):
         if a["failed"]:
             # one signature per (class, group of edit, first failing clause in the order of EDIT_CLAUSES)
             primary = next((c for c in EDIT_CLAUSES if c in a["failed"]), a["failed"][0])
-            group = ("data_raw" if kind in ("datum", "text cell", "branch mark", "row removed", "column added")
+            group = ("data_raw" if kind in ("datum", "text cell", "branch mark", "row removed", "column added", "zero written as -0.0")
                      else "model" if kind.startswith("model") else "metadata" if kind.startswith("meta") else "labels/material/adsorbate/temperature")
             run.violation({"site": "iso_id", "kind": "edit after read", "cls": cls, "edited": group, "clause": primary},
                           {"edit": kind, "failed_clauses": a["failed"], "record": r, "content_changes": a["effective"]})
@@ -278,6 +278,8 @@ def main(tier, seed):
     cls_of = {e["base"]: e["content"]["cls"] for e in table if e["default"]}
     singles = {(c["class"]["cls"], c["class"]["what"][0]) for c in ans["classes"]
                if not c["class"]["impl_predicts"] and c["class"]["kind"].startswith("same content") and len(c["class"]["what"]) == 1}
+    same_route = {(c["class"]["cls"], "") for c in ans["classes"]
+                  if not c["class"]["impl_predicts"] and c["class"]["kind"].startswith("same content") and not c["class"]["what"]}
     for c in ans["classes"]:
         k = c["class"]
         detail = {"pairs": c["count"], "differs_in": k["what"], "example": c["example"]}
@@ -285,10 +287,10 @@ def main(tier, seed):
             # predicted by the transcription of hashgen: one signature per hidden component (row labels / number dtype / branch dtype)
             for comp in sorted(k["what"]):
                 run.violation({"site": "iso_id", "cls": k["cls"], "kind": k["kind"], "depends_on": HIDDEN_NAMES.get(comp, comp), "impl_predicts": True}, detail)
-        elif k["kind"].startswith("same content") and len(k["what"]) > 1 and any((k["cls"], w) in singles for w in k["what"]):
+        elif k["kind"].startswith("same content") and k["what"] and ((k["cls"], "") in same_route or (len(k["what"]) > 1 and any((k["cls"], w) in singles for w in k["what"]))):
             run.add("offending_classes_subsumed")      # explained by a pair that differs in ONE of these route factors
         else:
-            run.violation({"site": "iso_id", "cls": k["cls"], "kind": k["kind"], "what": "+".join(sorted(k["what"])), "impl_predicts": k["impl_predicts"]}, detail)
+            run.violation({"site": "iso_id", "cls": k["cls"], "kind": k["kind"], "what": "+".join(sorted(k["what"])) or "edit below the rounding step, same route", "impl_predicts": k["impl_predicts"]}, detail)
     groups = {}
     for x in ans["no_identifier"]:
         key = (x["s"]["base"], x["error"], x["s"]["route"]["lit"])
@@ -318,8 +320,8 @@ def main(tier, seed):
     run.set(phase_seconds=_ph)
 
     run.set(exhaustive=bool(thorough),
-            rule="scenario = base content (2 metadata-only, 4 point, 4 model) x minimal mutation (each metadata value/key, each unit label, material, adsorbate, "
-                 "temperature, first/last datum of each numeric column +-1e-7, +6e-9, +4e-9, +-1e-10, branch mark, row removed/swapped, text cell, model "
+            rule="scenario = base content (2 metadata-only, 5 point incl. one with zeros in pressure/loading/supplementary column, 4 model) x minimal mutation (each metadata value/key, each unit label, material, adsorbate, "
+                 "temperature, first/last datum of each numeric column +-1e-7, +6e-9, +4e-9, +-1e-10, around zero also -2e-9, -4.9e-9, +2e-9, +-3e-9, +-2e-8 and the zero written as -0.0, branch mark, row removed/swapped, text cell, model "
                  "parameter/range/rmse/branch) x construction route (container, int/float literals, branch as ints/bools/column, direct/from_isotherm/JSON/"
                  "deepcopy/dict, insertion order, adsorbate spelling, metadata as numpy scalars of every kind, branch marks guessed (no marks given) under every row labelling, default unit labels omitted after an isotherm with other units was built, trivial user subclass), enumerated by TLC; " + ("all rows" if thorough else "every mutation on the default route, every route on the unmutated content, 6% seeded of the rest")
                  + "; every object also re-built in " + ("2 other processes" if thorough else "1 other process") + " with another PYTHONHASHSEED and read through a seeded sequence of read-only calls (accessors plus consumers of to_dict()/model.to_dict()/data: clone idioms, from_isotherm, from_modelisotherm, exports, deepcopy; the whole alphabet on the default-route objects); "
